@@ -39,6 +39,10 @@ def step (st : St) : List String → St × String
     (match s.toNat?, r.toNat?, x.toNat? with
      | some s, some r, some x => run st id (fun p => Haqq.Peg.step p (.convertCoin s r x))
      | _, _, _ => (st, "bad-op"))
+  | ["ccalias", id, _, _, _] =>
+    -- MsgConvertCoin naming the pair by its contract address: the sender's balance of that "denomination" is 0, so the
+    -- conversion is `convertCoin` of an account without coins: refused (convertCoin_without_coins_refused)
+    run st id (fun p => (p, false))
   | ["ce", id, s, r, x] =>
     (match s.toNat?, r.toNat?, x.toNat? with
      | some s, some r, some x => run st id (fun p => Haqq.Peg.step p (.convertERC20 s r x))
